@@ -5,12 +5,23 @@ from fractions import Fraction
 import numpy as np
 from props.common import load_impl, exc_name
 
-RULE = ("accuracy: ALL (validation label vector, prediction vector) pairs up to length 5 quick / 6 thorough over 1-3 classes (exhaustive) plus random longer "
-        "vectors over up to 5 classes with integer, negative and unsorted class sets; ROC-AUC: all binary validation vectors with both classes present up to length 6/8 (training classes = both "
+RULE = ("accuracy: ALL (validation label vector, prediction vector) pairs up to length 4 quick / 5 thorough over 1-3 classes (exhaustive) plus random longer "
+        "vectors over up to 5 classes with integer, negative and unsorted class sets and validation labels no training class has; PLUS label REPRESENTATIONS in which the training and the "
+        "validation label arrays have DIFFERENT dtypes (finding F19: the null scores built the constant prediction in the validation labels' dtype): strings of different widths where a training "
+        "class properly EXTENDS a validation label ('cat' / 'catfish': every validation / prediction vector up to length 3 over the classes a < ab < b, prefix-chain vocabularies, random words "
+        "over a two-letter alphabet, <U / wider <U / object arrays on either side), int64 / int32 training labels against int8 / uint8 / int16 / uint16 / int32 / uint32 validation labels with "
+        "training classes that WRAP onto a validation label in the validation dtype (v + k * 2^bits, -1 against uint8 255), integral float64 / float32 training labels (also wrapping ones) against "
+        "int8 / int16 / int32 / int64 validation labels and int64 training labels against integral float validation labels; training label vectors with repetitions, unsorted. Expected values by "
+        "definition on the label VALUES (accuracy of predicting class c everywhere = fraction of validation labels equal to c, no truncation; null score = the minimum over the training classes; "
+        "element-wise null row = indicator row of the first minimising class in sorted order; element-wise table = indicator [class == label]); for the Lean model the labels are coded as integers "
+        "preserving their sorted order. NOT covered: fractional float classes against integer labels and bytes labels (scikit-learn rejects the targets), labels of different kinds (str against int: numpy "
+        "cannot compare them), pandas label containers (C18), and int64 against uint64 labels beyond 2^53 (numpy's common dtype of the two is float64; reported separately). "
+        "ROC-AUC: all binary validation vectors with both classes present up to length 6/8 (training classes = both "
         "classes with all/sampled prediction vectors, and = each single class with its constant prediction) plus random longer ones whose training label vector "
-        "(with repetitions, unsorted) holds both classes or only ONE of the two validation classes; each compared three ways: datascope's elementwise_score / elementwise_null_score / null_score, scikit-learn's accuracy_score / "
+        "(with repetitions, unsorted) holds both classes or only ONE of the two validation classes; each compared three ways: datascope's elementwise_score / elementwise_null_score / null_score, scikit-learn's accuracy_score "
+        "(of the predictions in the training dtype and of every constant training-class prediction) / "
         "roc_auc_score on the same predictions, and the Lean model Ds.Util. Non-trivial = >= 2 classes occur in the validation vector and predictions are "
-        "neither all right nor all wrong; distinct = distinct (classes, labels, predictions).")
+        "neither all right nor all wrong; distinct = distinct (representation, dtypes, training labels / classes, labels, predictions).")
 
 
 def frs(x):
@@ -47,11 +58,123 @@ def run(ctx):
             pred = [rng.choice(classes) for _ in range(n)]
             yield classes, yv, pred
 
+    # ---- label REPRESENTATIONS: the same labels rendered so that the training and the validation label arrays have DIFFERENT dtypes -------------
+    # A representation is (y_train array, y_val array, predictions as Python values).  Expectations are by definition on the label VALUES
+    # (Python ==: 'cat' != 'catfish', 1 != 257, 1.0 == 1); for the Lean model the labels are coded as integers preserving their sorted order.
+    CHAINS = [["a", "ab", "abc", "abcd"], ["cat", "catfish", "cats"], ["dog", "dogma", "dogmatic"], ["no", "nor", "north", "northern"],
+              ["b", "ba", "bat", "bath"], ["x", "xy", "xyz"], ["1", "10", "100", "11"], ["yes", "yesterday"]]
+    VOCAB = sorted({w for ch in CHAINS for w in ch})
+    INTW = [("int8", 8, True), ("uint8", 8, False), ("int16", 16, True), ("uint16", 16, False), ("int32", 32, True), ("uint32", 32, False)]
+
+    def train_vector(tcl):
+        ytr = list(tcl)
+        if rng.random() < 0.5:
+            ytr += [rng.choice(tcl) for _ in range(rng.randint(0, 4))]
+        rng.shuffle(ytr)
+        return ytr
+
+    def rep_strings():
+        if rng.random() < 0.5:
+            # a vocabulary of prefix chains: validation labels are short words, training classes are validation labels and proper EXTENSIONS of them
+            V = rng.sample(VOCAB, rng.randint(1, 3))
+            ext = [w for w in VOCAB if any(w != v and w.startswith(v) for v in V) and w not in V]
+            tcl = [v for v in V if rng.random() < 0.8]
+            tcl += rng.sample(ext, min(len(ext), rng.choice([0, 1, 1, 2])))
+            if rng.random() < 0.25:
+                tcl += [w for w in rng.sample(VOCAB, 1) if w not in tcl]
+            if not tcl:
+                tcl = [rng.choice(V)]
+        else:
+            # random words over a tiny alphabet: prefixes of each other all the time
+            words = sorted({"".join(rng.choice("ab") for _ in range(rng.randint(1, 4))) for _ in range(6)})
+            V = rng.sample(words, rng.randint(1, min(3, len(words))))
+            tcl = rng.sample(words, rng.randint(1, min(4, len(words))))
+        n = rng.randint(1, 10)
+        yv = [rng.choice(V) for _ in range(n)]
+        ytr = train_vector(tcl)
+        r = rng.random()
+        tr = np.array(ytr, dtype=object) if r < 0.15 else np.array(ytr)                        # natural width = the longest training class
+        r = rng.random()
+        va = np.array(yv, dtype=object) if r < 0.15 else (np.array(yv).astype("<U12") if r < 0.3 else np.array(yv))   # natural width = the longest validation label
+        return "str", tr, va
+
+    def rep_intwidth():
+        name, bits, signed = rng.choice(INTW)
+        lo, hi = (-(1 << (bits - 1)), (1 << (bits - 1)) - 1) if signed else (0, (1 << bits) - 1)
+        pool = [v for v in list(range(-4, 6)) + [lo, lo + 1, hi - 1, hi] if lo <= v <= hi]
+        V = rng.sample(pool, rng.randint(1, 3))
+        wide = rng.choice(["int64", "int64", "int32"] if bits < 32 else ["int64"])
+        wlo, whi = (-(1 << 63), (1 << 63) - 1) if wide == "int64" else (-(1 << 31), (1 << 31) - 1)
+        # training classes: validation labels and values that WRAP onto a validation label in the validation dtype (v + k * 2^bits)
+        wraps = [v + k * (1 << bits) for v in V for k in (-2, -1, 1, 2, 3) if wlo <= v + k * (1 << bits) <= whi]
+        tcl = [v for v in V if rng.random() < 0.8]
+        tcl += rng.sample(wraps, min(len(wraps), rng.choice([0, 1, 1, 2])))
+        if rng.random() < 0.25:
+            tcl += [w for w in [rng.randint(-300, 300)] if w not in tcl]
+        if not tcl:
+            tcl = [rng.choice(V)]
+        n = rng.randint(1, 10)
+        yv = [rng.choice(V) for _ in range(n)]
+        return "int", np.array(train_vector(tcl), dtype=wide), np.array(yv, dtype=name)
+
+    def rep_floatint():
+        # integral floating-point labels on one side, integer labels on the other (fractional classes make scikit-learn reject the targets: outside)
+        V = rng.sample(range(-3, 6), rng.randint(1, 3))
+        tcl = [v for v in V if rng.random() < 0.8] + [w for w in rng.sample(range(-3, 8), rng.choice([0, 0, 1])) if w not in V]
+        idt = rng.choice(["int64", "int32", "int8", "int16"])
+        if rng.random() < 0.4 and idt in ("int8", "int16"):
+            tcl += [rng.choice(V) + rng.choice([1, -1, 2]) * (1 << int(idt[3:]))]      # float class that would wrap onto a validation label
+        tcl = sorted(set(tcl)) or [V[0]]
+        n = rng.randint(1, 10)
+        yv = [rng.choice(V) for _ in range(n)]
+        fdt = rng.choice(["float64", "float64", "float32"])
+        if rng.random() < 0.75:
+            return "float/int", np.array(train_vector(tcl), dtype=fdt), np.array(yv, dtype=idt)
+        tcl = [c for c in tcl if -100 <= c <= 100] or [V[0]]
+        return "int/float", np.array(train_vector(tcl), dtype="int64"), np.array(yv, dtype=fdt)
+
+    def cases_rep():
+        # (a) EVERY validation / prediction vector up to length 3 over the string classes a < ab < b (a class that properly extends a validation label)
+        names = ["a", "ab", "b"]
+        for n in range(1, 4):
+            for c in (2, 3):
+                for yv in itertools.product(range(c), repeat=n):
+                    for pred in itertools.product(range(c), repeat=n):
+                        yield "str", np.array(names[:c]), np.array([names[v] for v in yv]), [names[v] for v in pred]
+        # (b) corpus
+        yield "str", np.array(["cat", "dog", "catfish"]), np.array(["cat", "dog", "dog"]), ["cat", "catfish", "dog"]
+        yield "int", np.array([1, 257, 2], dtype="int64"), np.array([1, 1, 2], dtype="int8"), [1, 257, 2]
+        yield "int", np.array([-1, 3], dtype="int64"), np.array([255, 255, 3], dtype="uint8"), [-1, 3, 3]
+        yield "int", np.array([1, (1 << 32) + 1], dtype="int64"), np.array([1, 1, 1], dtype="int32"), [1, 1, (1 << 32) + 1]
+        yield "float/int", np.array([1.0, 2.0]), np.array([1, 1, 2]), [1.0, 2.0, 2.0]
+        yield "float/int", np.array([1.0, 257.0], dtype="float32"), np.array([1, 1, 1], dtype="int8"), [1.0, 257.0, 1.0]
+        # (c) random
+        for _ in range(240 if q else 2400):
+            rep, tr, va = rng.choice([rep_strings, rep_strings, rep_intwidth, rep_intwidth, rep_floatint])()
+            tcl = sorted(set(tr.tolist()))
+            yield rep, tr, va, [rng.choice(tcl) for _ in range(len(va))]
+
+    def all_acc_cases():
+        for classes, yv, pred in cases_acc():
+            yield None, np.array(classes), np.array(yv), pred
+        for x in cases_rep():
+            yield x
+
     budget = 400 if q else 2400
-    for classes, yv, pred in cases_acc():
-        y_train = np.array(classes)
-        yva = np.array(yv)
-        case = dict(metric="accuracy", classes=classes, y_val=yv, pred=pred)
+    n_plain = 0
+    for rep, y_train, yva, pred in all_acc_cases():
+        ytr = y_train.tolist()
+        classes = sorted(set(ytr))                    # Python values; row order of the element-wise table = np.unique(y_train)
+        yv = yva.tolist()
+        n = len(yv)
+        if rep is None:
+            case = dict(metric="accuracy", classes=classes, y_val=yv, pred=pred)
+            mcl, myv, mpred = classes, yv, pred
+            n_plain += 1
+        else:
+            case = dict(metric="accuracy", representation=rep, y_train=ytr, train_dtype=str(y_train.dtype), classes=classes, y_val=yv, val_dtype=str(yva.dtype), pred=pred)
+            code = {v: i for i, v in enumerate(sorted(set(classes) | set(yv)))}          # order-preserving integer codes (1.0 and 1 are one label)
+            mcl, myv, mpred = [code[c] for c in classes], [code[y] for y in yv], [code[p] for p in pred]
         try:
             E = acc.elementwise_score(X1, y_train, X1, yva)
             N = acc.elementwise_null_score(X1, y_train, X1, yva)
@@ -59,25 +182,44 @@ def run(ctx):
         except Exception as e:  # noqa
             ctx.mismatch("element-wise accuracy raised", case, impl=exc_name(e) + repr(e))
             continue
-        n = len(yv)
+        if np.asarray(E).shape != (len(classes), n) or np.asarray(N).shape != (n,):
+            ctx.mismatch("element-wise accuracy table is not (training classes) x (validation points) / null row not (validation points)", case,
+                         impl=[list(np.asarray(E).shape), list(np.asarray(N).shape)], spec=[[len(classes), n], [n]])
+            continue
         got = Fraction(sum(Fraction(float(E[classes.index(p), j])) for j, p in enumerate(pred)), n)
         want = Fraction(sum(1 for a, b in zip(yv, pred) if a == b), n)
-        sk = Fraction(float(accuracy_score(yva, np.array(pred)))).limit_denominator(1000)
+        pred_arr = np.array(pred, dtype=y_train.dtype)             # a fitted model predicts entries of its classes_ (= np.unique(y_train)): the training dtype
+        sk = Fraction(float(accuracy_score(yva, pred_arr))).limit_denominator(1000)
         accs = [Fraction(sum(1 for y in yv if y == c), n) for c in classes]
         want_null = min(accs)
+        want_nullrow = [Fraction(int(y == classes[accs.index(want_null)])) for y in yv]        # the FIRST minimising class in sorted order
         got_nullmean = Fraction(sum(Fraction(float(x)) for x in N), n)
         nontriv = len(set(yv)) >= 2 and 0 < want < 1
-        ctx.case((tuple(classes), tuple(yv), tuple(pred)), nontrivial=nontriv, sample=case, metric="accuracy", n=n)
+        key = (tuple(classes), tuple(yv), tuple(pred)) if rep is None else (rep, str(y_train.dtype), str(yva.dtype), tuple(ytr), tuple(yv), tuple(pred))
+        ctx.case(key, nontrivial=nontriv, sample=case, metric="accuracy", n=n, representation=rep or "same dtype")
         ctx.maxi(length=n, classes=len(classes))
         if got != want or sk != want:
-            ctx.mismatch("mean element-wise accuracy score != accuracy of the predictions", case, impl=str(got), spec=str(want))
+            ctx.mismatch("mean element-wise accuracy score != accuracy of the predictions", case, impl=str(got), spec=dict(by_definition=str(want), sklearn=str(sk)))
             continue
         if got_nullmean != want_null or abs(Fraction(float(null)) - want_null) > Fraction(1, 10 ** 9):
             ctx.mismatch("mean element-wise null score / null score != lowest accuracy of a constant training class", case,
                          impl=dict(elementwise_mean=str(got_nullmean), null_score=float(null)), spec=str(want_null))
             continue
-        if ctx.driver is not None and (n >= 4 or rng.random() < 0.1):
-            m = ctx.model({"op": "util", "classes": classes, "yTest": yv, "pred": pred})["ok"]
+        if rep is not None or n_plain % 7 == 0 or n > 4:
+            # the tables themselves, by definition on the label VALUES, and scikit-learn's accuracy of every constant prediction (for the exhaustive
+            # same-dtype part every constant prediction vector is enumerated above as `pred` anyway)
+            if [[Fraction(float(x)) for x in row] for row in np.asarray(E).tolist()] != [[Fraction(int(y == c)) for y in yv] for c in classes] \
+                    or [Fraction(float(x)) for x in np.asarray(N).tolist()] != want_nullrow:
+                ctx.mismatch("element-wise accuracy table != indicator [class == label] / element-wise null row != indicator row of the first lowest-accuracy class", case,
+                             impl=dict(E=np.asarray(E).tolist(), N=np.asarray(N).tolist()), spec=dict(null_row=want_nullrow))
+                continue
+            sk_const = [Fraction(float(accuracy_score(yva, np.full(n, c, dtype=y_train.dtype)))).limit_denominator(1000) for c in classes]
+            if sk_const != accs:
+                ctx.mismatch("scikit-learn's accuracy of the constant predictions != fraction of validation labels equal to the class (trusted contract)", case,
+                             impl=[str(x) for x in sk_const], spec=[str(x) for x in accs], failing_input=False, broken="contract:accuracy_score")
+                continue
+        if ctx.driver is not None and (n >= 4 or rng.random() < (0.1 if rep is None else 0.5)):
+            m = ctx.model({"op": "util", "classes": mcl, "yTest": myv, "pred": mpred})["ok"]
             mE = [[Fraction(x) for x in row] for row in m["accElem"]]
             if mE != [[Fraction(float(x)) for x in row] for row in E.tolist()] or [Fraction(x) for x in m["accNullElem"]] != [Fraction(float(x)) for x in N.tolist()] \
                     or Fraction(m["accNull"]) != want_null or Fraction(m["accuracy"]) != want:
